@@ -65,6 +65,56 @@ CHECKS = {
         note="bincode 1.3 is the format exercised; DataItem round trips are part of C16's check.",
         technique=TECH + "checkpoint/restore explored from every reachable model state; original and restored real instances compared on every continuation step",
         ref="6 (C06)"),
+    "C07": dict(
+        text="The spec invariant InRange (the exact reference of RSI, FAST_STOCH, SLOW_STOCH, MFI lies in [0,100] and of ER in [0,1] whenever its denominator is "
+             "non-zero) is model-checked on closed / depth-bounded models; every transition and seeded regime streams of 6 000-40 000 steps (trends, one-tick "
+             "oscillation, gaps, nearly flat, 10^6..10^9 spikes followed by small monotone ticks, widely varying volume, occasional resets) are replayed and the "
+             "real output is range-checked at every step at which the specification says the reference denominator is non-zero.",
+        note="Whether the denominator is zero is decided exactly on the integer lattice; MFI is checked with slack 100*tau(t)*c only when c <= 1000 as the property says.",
+        technique=TECH + "range invariant on the reference plus range check of the real outputs on replayed transitions and long regime streams",
+        ref="6 (C07)"),
+    "C08": dict(
+        text="From EVERY reachable state of the closed model of each of the 22 kinds (periods 1..4, 1..5 thorough) TLC explores a flat stretch of n+3 inputs at three "
+             "price levels (zero-volume stretches at moving prices for MFI/OBV, and flat from the start after reset); plus seeded activity followed by flat stretches of "
+             "1 500-5 000 bars (long enough for exponential averages to underflow); wherever the specification marks the window degenerate the real output must be "
+             "finite, inside its documented range and equal to the neutral value where one is defined (FAST_STOCH 50, CCI 0, ROC 0, TR 0 exactly; MAD, SD and band "
+             "widths within the stated margins), at dyadic and non-dyadic price units.",
+        note="Degeneracy is decided by the specification on the lattice; a CCI window that is flat only through a tie of different bars is compared at exact units only.",
+        technique=TECH + "flat continuations explored from every reachable model state and long flat scripted stretches, neutral / finite / range expectations from the spec",
+        ref="6 (C08)"),
+    "C09": dict(
+        text="Spec invariants NonNeg and EmaConvex are model-checked; every transition of closed / depth-bounded models (SMA, WMA, SD, MAD, MIN/MAX, BB, EMA, TR, ATR, "
+             "KC, CE, MACD, PPO; multipliers 0, 1/2, 2, 1000; resets) and seeded cancellation-engineered streams (10^6..10^17 spikes followed by flat stretches, "
+             "offsets to 1e9) are replayed and the inequalities evaluated on the real outputs: SD/MAD/TR/ATR >= 0 and never NaN, MIN <= MAX, lower <= average <= upper, "
+             "CE exits against the window extremes supplied by the spec, histogram = line - signal, SMA/WMA/EMA inside the window / history range.",
+        note="Band, exit and histogram relations are checked with the property's slack; the evidence records how many held with zero slack.",
+        technique=TECH + "inequality invariants on the reference plus their evaluation on real outputs for every replayed transition and cancellation-engineered streams",
+        ref="6 (C09)"),
+    "C10": dict(
+        text="TLC executes TaSystem along seeded scripts in which, per kind, one instance gets bars with five independently varying fields, a second the same bars with "
+             "every undocumented field perturbed, a third the documented field as a scalar, and a fourth/fifth a scalar vs a one-price bar; the specification supplies "
+             "Eff(kind, input) -- exactly the numbers the kind is documented to read; real instances whose Eff histories agree must agree within 1e-12 relative, and "
+             "DataItem must give bit-identical outputs to the user-defined bar type whenever the builder accepts the bar.",
+        note="User types are represented by one local struct and DataItem; a vacuity guard fails the run if fewer than 2 200 cross-comparisons happened.",
+        technique=TECH + "effective-input map Eff from the spec; real instances with equal Eff histories compared on scripted bar streams",
+        ref="6 (C10)"),
+    "C12": dict(
+        text="TLC explores every sequence up to depth 4 (5) over ordinary values, NaN, +-inf, +-f64::MAX, a subnormal, -0.0, reset and inconsistent bars for each kind "
+             "and period 1..2 (1..3), and executes scripted runs of 3*period+3 calls for every period 1..64 (plus sampled up to 4096) with faults injected at varying "
+             "cursor positions followed by reset and reuse; the spec invariant Safe (every ring index and counter in bounds in the transcribed algorithm) holds on "
+             "all of them, and in the real crate -- built with overflow checks and debug assertions -- next, reset, clone, Display, Debug, bincode and serde_json "
+             "must return normally after every op (catch_unwind).",
+        note="Absence of panic and termination are what is observed; the cursor invariant for arbitrary periods is additionally stated in spec/Cursor.tla.",
+        technique=TECH + "fault-sequence enumeration by TLC with index-safety invariant, replayed under catch_unwind with a returns-suite after every op",
+        ref="6 (C12)"),
+    "C17": dict(
+        text="The specification's reference state of the 12 windowed kinds IS the window of the last n (n+1 for ROC/ER/MFI) inputs, and the transcribed algorithm is "
+             "model-checked to refine it; TLC enumerates every input sequence (no state merging) a few steps longer than the window over {1,2,3, 10^6 spike} and "
+             "executes seeded long histories with spikes; for every behaviour the real instance fed the whole history is compared with a fresh real instance fed "
+             "only the last Memory(kind, p) inputs: exactly for MIN/MAX/FAST_STOCH, within tau(t)*M times the spec's condition number otherwise.",
+        note="Memory(kind, p) comes from the specification (TaDim); ratios with a condition number above 1e6 are skipped and counted.",
+        technique=TECH + "window-as-state reference; real whole-history vs bare-suffix comparison on every replayed behaviour",
+        ref="6 (C17)"),
 }
 
 NOT_APPLICABLE = {
